@@ -32,7 +32,7 @@ PROPS = {
         "bundles": ["core"],
         "fns": {"core": ["CQueue::add", "CQueue::fetch_next"]},
         "assumptions": [A_DLL, A_DUR, A_BOUNDS, A_NEW],
-        "not_covered": ["buf_process flushing a handler's buffered sends in emission order (net/runtime/ctx.rs: global Mutex, outside the subset)", "BinaryHeap back end (only promises time order)"],
+        "not_covered": ["BOUNDED only (replay/net_driver): buf_process flushes the events buffered in one activation in emission order (net/runtime/ctx.rs: global Mutex, outside the subset) — bursts of 22..41 timers with ties", "BinaryHeap back end (only promises time order)"],
     },
     "C10": {
         "bundles": ["core", "core#total"],
@@ -63,7 +63,7 @@ PROPS = {
         "fns": {"processor": ["Processor::incoming_upstream", "Processor::incoming_downstream", "ProcessingState::bump_upstream", "ProcessingState::bump_downstream", "ProcessingStack::append"]},
         "assumptions": ["the calls made on stack elements are recorded in a ghost log written right after each real call site (rewrite R4b, tied to the call statements of the real code); elements are arbitrary user code (no assumption on what incoming returns)",
                         "shim declarations: trait ProcessingElement (supertrait Any and default bodies dropped), opaque Message, trait Module"],
-        "not_covered": ["that every ModuleRef entry point calls incoming_upstream -> handler -> incoming_downstream (net/module/refs.rs, net/runtime/events.rs: RefCell + tokio harness): read, not proved",
+        "not_covered": ["BOUNDED only (replay/net_driver): the bracket event_start -> incoming -> handler -> event_end at the ModuleRef entry points (net/module/refs.rs, net/runtime/events.rs: RefCell + tokio harness) for start-up, timer, message and tear-down events with a two-element stack, one element consuming",
                         "brackets of two events never interleave; emission order of sends; processing stacks supplied via Module::stack"],
     },
     "C07": {
@@ -71,8 +71,8 @@ PROPS = {
         "fns": {"chanbuf": ["Buffer::enqueue", "Buffer::dequeue", "ChannelDropBehaviour::handle", "Message::length"]},
         "assumptions": ["opaque shims Header/Body/Connection; Body::length = declared length (Kani unit body)", "std: Option::map_or, VecDeque push_back/pop_front (vstd)", "mem::drop of a message has no effect on the buffer",
                         "precondition: accumulated bytes + message length <= usize::MAX (the comparison `acc_bytes + msg.length() > limit` is otherwise an overflow)", "configuration verified: feature `tracing` off (cfg'd statements are stripped)"],
-        "not_covered": ["transmission and arrival TIMES (size*8/bitrate + latency + jitter): f64 arithmetic in calculate_busy/calculate_duration — no float theory within reach",
-                        "Channel::send_message / unbusy (Arc<Self> + RwLock + global RNG + dyn probe): 'busy exactly for the transmission time', 'delivered exactly once to the next hop', 'never stuck once idle' are NOT decided",
+        "not_covered": ["BOUNDED only (replay/net_driver, never counted as proved): Channel::send_message / unbusy — busy exactly for size*8/bitrate, delivery at start + busy + latency, delivered exactly once, Drop/Queue policies end to end, FIFO restart the instant the channel is idle, zero jitter; these functions (Arc<Self> + RwLock + global RNG + dyn probe, f64 arithmetic) are outside the verifier's reach",
+                        "jitter > 0 (random) and 'never stuck once idle' for busy times that round to 0 ns at very high bitrates (observation O2) are not decided",
                         "only the queue/drop accounting of C07 is claimed: Buffer invariant, FIFO, Drop and Queue(limit) policies"],
     },
     "C12": {
